@@ -332,6 +332,13 @@ func traps(tier string, seed int64) []*Scenario {
 				up(0), up(0, "X"), up(0, "M1"), up(0, "IR1"), up(0, gate, "X"), up(0, gate)}})
 		}
 	}
+	// the gate of the main-chain contracts follows the role: right after NeoFSAlphabet is handed over to other keys (designation
+	// in block N, update in block N+1) the FORMER majority must be refused and the new one accepted
+	for _, k := range []string{"neofs", "processing"} {
+		out = append(out, &Scenario{N: 3, Kind: k, Mode: "real", Lv: cfgNew - 1, Src: "trap:gate-handover", Steps: []Step{
+			up(0, "X"), {Act: "prep", S: []string{}, Op: "redesignate"}, up(0, "IRMAJOLD"), up(0, "IRMAJOLD", "X"),
+			{Act: "prep", S: []string{}, Op: "redesignate"}, up(0, "IRMAJ"), up(0, "IRMAJ")}})
+	}
 	// version bounds on real contracts (builds with other constants); a rotating subset in the quick tier
 	lvs := []int64{cfgPrev - 1, cfgPrev, cfgNew, cfgNew + 1}
 	plain := []string{"proxy", "processing", "neofs", "reputation", "neofsid", "audit", "alphabet"} // no structure-changing migration
